@@ -1,0 +1,39 @@
+//go:build verif
+
+package c01
+
+import (
+	gvfs "github.com/lni/vfs"
+
+	"github.com/lni/dragonboat/v4/config"
+	"github.com/lni/dragonboat/v4/internal/rsm"
+	pb "github.com/lni/dragonboat/v4/raftpb"
+)
+
+// Payload returns the command a client proposed from a raft log entry (entries
+// are stored encoded, optionally compressed).
+func Payload(e pb.Entry) ([]byte, error) {
+	return rsm.GetPayload(e)
+}
+
+// StrictFS is an in-memory file system that keeps what was synced apart from what
+// was only written: Crash() is a power loss.
+type StrictFS struct {
+	fs *gvfs.MemFS
+}
+
+// NewStrictFS returns a new strict in-memory file system.
+func NewStrictFS() *StrictFS { return &StrictFS{fs: gvfs.NewStrictMem()} }
+
+// FS is the file system to hand to a NodeHost.
+func (s *StrictFS) FS() config.IFS { return s.fs }
+
+// Freeze makes every later Sync a no-op: nothing written from now on becomes durable.
+func (s *StrictFS) Freeze() { s.fs.SetIgnoreSyncs(true) }
+
+// Crash drops everything that was not synced before Freeze and makes the file
+// system usable again.
+func (s *StrictFS) Crash() {
+	s.fs.ResetToSyncedState()
+	s.fs.SetIgnoreSyncs(false)
+}
